@@ -28,11 +28,17 @@ impl<const B: Word> EstimatedLog2 for Repr<B> {
         } else {
             B.log2_bounds()
         };
+        // the conversion of the exponent is not exact beyond 2^24, the products and the sums round again
         let e = self.exponent as f32;
-        let (lb, ub) = if self.exponent >= 0 {
-            (logs_lb + e * logb_lb, logs_ub + e * logb_ub)
+        let (e_lb, e_ub) = if e.abs() < 16777216. {
+            (e, e)
         } else {
-            (logs_lb + e * logb_ub, logs_ub + e * logb_lb)
+            (next_down(e), next_up(e))
+        };
+        let (lb, ub) = if self.exponent >= 0 {
+            (logs_lb + next_down(e_lb * logb_lb), logs_ub + next_up(e_ub * logb_ub))
+        } else {
+            (logs_lb + next_down(e_lb * logb_ub), logs_ub + next_up(e_ub * logb_lb))
         };
         (next_down(lb), next_up(ub))
     }
